@@ -278,6 +278,7 @@ type Gen struct {
 	pref  map[string]Atom // per program: the atom most constraints on a label agree with
 	shape map[string]int  // per program: 1 = the label mostly holds structs, 2 = scalars
 	path  string         // path of the struct being generated (preferences are per path)
+	closeBody bool       // the next definition gets a close({...}) body
 }
 
 type GenCfg struct {
@@ -384,7 +385,16 @@ func (g *Gen) labels(n int) []Label {
 func (g *Gen) newDef(depth int) Ref {
 	name := fmt.Sprintf("#D%d", g.ndefs)
 	g.ndefs++
-	d := Ref{name, g.schema(depth)}
+	closeBody := g.closeBody
+	g.closeBody = false // nested definitions keep plain bodies
+	var body Expr = g.schema(depth)
+	if closeBody {
+		// #D: close({...}): closed by close() AND recursively as a definition.  Only generated for
+		// definitions that are EMBEDDED: used directly, cue does not close such a definition
+		// recursively (known finding F16, corpus/C05/pairs.txt)
+		body = Close{body}
+	}
+	d := Ref{name, body}
 	g.defs = append(g.defs, d)
 	return d
 }
@@ -490,6 +500,25 @@ func (g *Gen) schema(depth int) Struct {
 			v = Struct{fs}
 		}
 		ds = append(ds, Decl{H: 'p', Pat: g.r.Intn(len(patterns)), E: v})
+		if g.r.Chance(1, 2) {
+			// a second pattern, usually overlapping the first ([string] matches everything), whose
+			// constraint matters: all matching patterns must apply, in any order of arrival
+			var v2 Expr
+			switch g.r.Intn(4) {
+			case 0:
+				v2 = ScalKind{common.Pick(g.r, []string{"int", "string", "bool"})}
+			case 1:
+				v2 = common.Pick(g.r, boundFamily)
+			case 2:
+				v2 = ScalAtom{g.atom()}
+			default:
+				v2 = ScalKind{"int"}
+			}
+			if _, isStruct := v.(Struct); isStruct {
+				v2 = Top{}
+			}
+			ds = append(ds, Decl{H: 'p', Pat: g.r.Intn(len(patterns)), E: v2})
+		}
 	}
 	if g.r.Chance(1, 7) {
 		ds = append(ds, Decl{H: '.'})
@@ -502,7 +531,9 @@ func (g *Gen) embedLit(depth int) Struct {
 	var ds []Decl
 	var e Expr
 	if g.r.Chance(2, 3) {
+		g.closeBody = g.r.Chance(1, 3)
 		e = g.newDef(depth - 1)
+		g.closeBody = false
 	} else {
 		e = Close{g.schema(depth - 1)}
 	}
@@ -535,6 +566,66 @@ func (g *Gen) rootConj(depth int) Expr {
 	return g.schema(depth)
 }
 
+// patternStress: a literal with several overlapping patterns whose constraints differ, met by fields
+// that arrive through another conjunct (a definition, an embedding literal, data) - every matching
+// pattern must apply to every field, whatever the order in which patterns and fields arrive.
+func (g *Gen) patternStress() []Expr {
+	np := 2 + g.r.Intn(2)
+	var ds []Decl
+	for i := 0; i < np; i++ {
+		var v Expr
+		switch g.r.Intn(5) {
+		case 0, 1:
+			v = ScalKind{common.Pick(g.r, []string{"int", "string", "bool"})}
+		case 2:
+			v = common.Pick(g.r, boundFamily)
+		case 3:
+			v = ScalAtom{g.atom()}
+		default:
+			v = Top{}
+		}
+		ds = append(ds, Decl{H: 'p', Pat: g.r.Intn(len(patterns)), E: v})
+	}
+	if g.r.Chance(1, 3) {
+		ds = append(ds, Decl{H: 'f', L: Label{LReg, g.r.Intn(freshID)}, FK: "=?"[g.r.Intn(2)], E: g.scalar()})
+	}
+	common.Shuffle(g.r, ds)
+	var lit Expr = Struct{ds}
+	if g.r.Chance(1, 4) {
+		lit = Close{lit}
+	}
+	// the fields: 1-2 labels with scalar values, delivered in different ways
+	var fs []Decl
+	for _, l := range g.labels(1 + g.r.Intn(2)) {
+		fs = append(fs, Decl{H: 'f', L: l, FK: "==?!"[g.r.Intn(4)], E: g.scalar()})
+	}
+	var carrier Expr
+	switch g.r.Intn(4) {
+	case 0:
+		name := fmt.Sprintf("#D%d", g.ndefs)
+		g.ndefs++
+		d := Ref{name, Struct{fs}}
+		g.defs = append(g.defs, d)
+		carrier = d
+	case 1:
+		name := fmt.Sprintf("#D%d", g.ndefs)
+		g.ndefs++
+		d := Ref{name, Struct{fs}}
+		g.defs = append(g.defs, d)
+		carrier = Struct{[]Decl{{H: 'e', E: d}}}
+	default:
+		carrier = Struct{fs}
+	}
+	out := []Expr{lit, carrier}
+	if g.r.Chance(1, 2) {
+		out = []Expr{carrier, lit}
+	}
+	if g.r.Chance(1, 3) {
+		out = []Expr{And{out[0], out[1]}}
+	}
+	return out
+}
+
 func NewGen(r *common.Rng, cfg GenCfg) *Gen { return &Gen{r: r, cfg: cfg} }
 
 func (g *Gen) Program() *Program {
@@ -544,6 +635,10 @@ func (g *Gen) Program() *Program {
 	g.shape = map[string]int{}
 	n := 1 + g.r.Intn(3)
 	var cs []Expr
+	if g.cfg.Closedness && g.r.Chance(1, 8) {
+		cs = append(cs, g.patternStress()...)
+		n = g.r.Intn(2)
+	}
 	for i := 0; i < n; i++ {
 		g.path = ""
 		cs = append(cs, g.rootConj(g.cfg.MaxDepth))
